@@ -598,6 +598,8 @@ func checkC13(r *core.Run) {
 
 	r.Rule("CAP-sched-delete: the height-keyed schedule buckets sao:ExpiredShard / sao:TimeoutOrder are deleted only from the sao end-blocker (after consuming all entries)")
 	ruleSchedDelete(r)
+	r.Rule("T-settled-shards: where a data model's orders are settled with TerminateOrder (Terminate, force push), every success path after such a call runs the shard-removal loop to its end")
+	ruleSettledShardsRemoved(r, "T-settled-shards", "sao/keeper.msgServer.Terminate", "model/keeper.Keeper.UpdateMeta")
 	r.Rule("T-aliaskey: SetModel / GetModel / RemoveModel sites all build the alias-index key by the same expression of the model's Owner, Alias, GroupId")
 	ruleAliasKeyShape(r, "T-aliaskey")
 
